@@ -191,6 +191,41 @@ TextRemapSeq(bytes) ==
 TextRemapSize(bytes) == Cardinality({bytes[i] : i \in 1..Len(bytes)})
 
 ---------------------------------------------------------------------------
+(* Kinds of values and the conversions between them (the type-state graph  *)
+(* of the library): which conversion methods a kind offers and the kind    *)
+(* of the result.  TraceLib's Conv action and the LibConv machine share    *)
+(* these definitions.                                                      *)
+
+TreeKindNames == {"QWT256", "QWT512", "QWT256Pfs", "QWT512Pfs", "HQWT256", "HQWT512", "HQWT256Pfs", "HQWT512Pfs", "WT", "HWT"}
+AllKindNames == TreeKindNames \cup {"QV", "RSQ256", "RSQ512", "QB", "BV", "BVM", "RSN", "RSW", "DA0", "DA1"}
+
+FamOfKind(kind) ==
+    IF kind \in {"QV", "RSQ256", "RSQ512"} THEN "Q"
+    ELSE IF kind = "QB" THEN "QB"
+    ELSE IF kind \in {"BV", "BVM", "RSN", "RSW", "DA0", "DA1"} THEN "B"
+    ELSE "T"
+
+ConvKind(m, srckind) ==
+    IF m \in {"clone", "serde", "collect_iter"} THEN srckind
+    ELSE IF m = "into_bv" THEN "BV" ELSE IF m = "into_bvm" THEN "BVM"
+    ELSE IF m \in {"rs_narrow", "rs_narrow_from"} THEN "RSN"
+    ELSE IF m \in {"rs_wide", "rs_wide_from"} THEN "RSW"
+    ELSE IF m = "da0" THEN "DA0" ELSE IF m = "da1" THEN "DA1"
+    ELSE IF m = "qbuild" THEN "QV" ELSE IF m = "rsq256" THEN "RSQ256" ELSE IF m = "rsq512" THEN "RSQ512"
+    ELSE srckind
+
+\* the conversions a value of a kind offers (every value can be cloned; every value but the
+\* builder can be serialized)
+ConvMethods(kind) ==
+    IF kind = "BVM" THEN {"clone", "serde", "collect_iter", "into_bv"}
+    ELSE IF kind = "BV" THEN {"clone", "serde", "collect_iter", "into_bvm", "rs_narrow", "rs_narrow_from",
+                               "rs_wide", "rs_wide_from", "da0", "da1"}
+    ELSE IF kind \in {"RSN", "RSW", "DA0", "DA1", "RSQ256", "RSQ512"} THEN {"clone", "serde"}
+    ELSE IF kind = "QB" THEN {"qbuild"}
+    ELSE IF kind = "QV" THEN {"clone", "serde", "rsq256", "rsq512"}
+    ELSE {"clone", "serde", "collect_iter"}
+
+---------------------------------------------------------------------------
 (* Iterators.  A double-ended iterator over S is (f, b): the next front    *)
 (* element is S[f+1], the next back element S[b].                          *)
 
